@@ -65,7 +65,14 @@ impl<'t, 'b> Inj<'t, 'b> {
                 }
                 1 => {
                     if keep_string {
-                        cur = Expr::Call { func: "join".into(), args: vec![Expr::List(vec![cur]), Expr::Str("".into())] };
+                        // through a list literal, or through a set / list comprehension whose
+                        // element it is (the comprehension is as local as its element)
+                        let inner = match self.t.choose(3) {
+                            0 => Expr::List(vec![cur]),
+                            1 => Expr::ListComp { id: self.id(), elem: Box::new(cur), var_id: self.id(), var: self.fresh("rz"), src: Box::new(Expr::List(vec![Expr::Int(1, 0)])) },
+                            _ => Expr::SetComp { id: self.id(), elem: Box::new(cur), var_id: self.id(), var: self.fresh("rz"), src: Box::new(Expr::List(vec![Expr::Int(1, 0)])) },
+                        };
+                        cur = Expr::Call { func: "join".into(), args: vec![inner, Expr::Str("".into())] };
                     } else {
                         cur = Expr::List(vec![Expr::Int(1, 0), cur]);
                     }
@@ -251,10 +258,20 @@ fn inject(inj: &mut Inj, prog: &mut GProg, fault: &str) -> Option<(Rule, String)
     let cap_expr = |inj: &mut Inj, name: &str| Expr::Capture { id: inj.id(), name: name.to_string() };
     let mut stmts: Vec<Stmt> = vec![];
     let expected: (Rule, String);
+    // set by `nonlocal` when the fault statements have to sit in a nested block below this one
+    let mut shadow_outer: Option<Stmt> = None;
     // a non-local string / list value for the locality faults
     let mut nonlocal = |inj: &mut Inj, want_list: bool| -> Option<(Vec<Stmt>, Expr)> {
         let mut pre = vec![];
-        let base = match inj.t.choose(3) {
+        let base = match inj.t.choose(4) {
+            3 => {
+                // a mutable variable that shadows an immutable one of an enclosing block: the
+                // statements are put into a nested block by the caller (`shadow_outer`)
+                let m = inj.fresh("shadowed");
+                shadow_outer = Some(Stmt::Let { id: inj.id(), var: VarRef::Plain { id: inj.id(), name: m.clone() }, value: if want_list { Expr::List(vec![Expr::Int(0, 0)]) } else { Expr::Str("outer".into()) } });
+                pre.push(Stmt::Var { id: inj.id(), var: VarRef::Plain { id: inj.id(), name: m.clone() }, value: if want_list { Expr::List(vec![Expr::Int(1, 0)]) } else { Expr::Str("s".into()) } });
+                inj.var(&m)
+            }
             0 => {
                 let c = one_cap.clone()?;
                 Expr::Scoped { id: inj.id(), scope: Box::new(cap_expr(inj, &c)), name: "any_scoped".into() }
@@ -520,6 +537,11 @@ fn inject(inj: &mut Inj, prog: &mut GProg, fault: &str) -> Option<(Rule, String)
         }
         _ => return None,
     }
+    // a shadowing fault: the outer declaration stays in this block, the rest goes into a nested one
+    let stmts = match shadow_outer {
+        Some(outer) => vec![outer, Stmt::If { id: inj.id(), arms: vec![IfArm { id: inj.id(), conds: vec![Cond::Bool(inj.id(), Expr::True)], body: stmts }] }],
+        None => stmts,
+    };
     let st = prog.stanzas_mut().nth(si)?;
     let blk = block_mut(&mut st.body, &path);
     for (k, s) in stmts.into_iter().enumerate() {
@@ -580,15 +602,31 @@ pub fn case(tape: &[u32]) -> CaseOutcome {
     // (nothing is executed here): sets as iteration sources, comprehensions over comprehensions
     if t.chance(1, 3) {
         let mut ids = Ids(5_000_000);
-        let k = t.choose(5);
-        let one = |ids: &mut Ids| Expr::List(vec![Expr::Int(1, 0)]);
+        let k = t.choose(6);
+        let mut extra_before: Option<Stmt> = None;
+        let one = |_ids: &mut Ids| Expr::List(vec![Expr::Int(1, 0)]);
         let set_comp = |ids: &mut Ids, elem: Expr| Expr::SetComp { id: ids.next(), elem: Box::new(elem), var_id: ids.next(), var: "dz_y".into(), src: Box::new(Expr::List(vec![Expr::Int(1, 0)])) };
         let stmt = match k {
             0 => Stmt::For { id: ids.next(), var_id: ids.next(), var: "dz_x".into(), value: set_comp(&mut ids, Expr::Int(1, 0)), body: vec![] },
             1 => Stmt::For { id: ids.next(), var_id: ids.next(), var: "dz_x".into(), value: set_comp(&mut ids, Expr::Call { func: "node".into(), args: vec![] }), body: vec![] },
             2 => Stmt::Let { id: ids.next(), var: VarRef::Plain { id: ids.next(), name: "dz_l".into() }, value: Expr::ListComp { id: ids.next(), elem: Box::new(Expr::Var { id: ids.next(), name: "dz_e".into() }), var_id: ids.next(), var: "dz_e".into(), src: Box::new(Expr::Set(vec![Expr::Int(2, 0)])) } },
             3 => Stmt::For { id: ids.next(), var_id: ids.next(), var: "dz_x".into(), value: Expr::ListComp { id: ids.next(), elem: Box::new(Expr::Str("s".into())), var_id: ids.next(), var: "dz_e".into(), src: Box::new(one(&mut ids)) }, body: vec![] },
-            _ => Stmt::Scan { id: ids.next(), value: Expr::Call { func: "format".into(), args: vec![Expr::Str("{}".into()), Expr::Int(1, 0)] }, arms: vec![ScanArm { regex: "a".into(), body: vec![] }] },
+            4 => Stmt::Scan { id: ids.next(), value: Expr::Call { func: "format".into(), args: vec![Expr::Str("{}".into()), Expr::Int(1, 0)] }, arms: vec![ScanArm { regex: "a".into(), body: vec![] }] },
+            _ => {
+                // an immutable local that shadows a mutable one of the enclosing block is local
+                extra_before = Some(Stmt::Var { id: ids.next(), var: VarRef::Plain { id: ids.next(), name: "dz_s".into() }, value: Expr::Str("a".into()) });
+                Stmt::If {
+                    id: ids.next(),
+                    arms: vec![IfArm {
+                        id: ids.next(),
+                        conds: vec![Cond::Bool(ids.next(), Expr::True)],
+                        body: vec![
+                            Stmt::Let { id: ids.next(), var: VarRef::Plain { id: ids.next(), name: "dz_s".into() }, value: Expr::Str("b".into()) },
+                            Stmt::Scan { id: ids.next(), value: Expr::Var { id: ids.next(), name: "dz_s".into() }, arms: vec![ScanArm { regex: "x".into(), body: vec![] }] },
+                        ],
+                    }],
+                }
+            }
         };
         let n = base.items.iter().filter(|i| matches!(i, Item::Stanza(_))).count();
         if n > 0 {
@@ -597,6 +635,9 @@ pub fn case(tape: &[u32]) -> CaseOutcome {
             for it in base.items.iter_mut() {
                 if let Item::Stanza(st) = it {
                     if seen == pick {
+                        if let Some(b) = extra_before.clone() {
+                            st.body.push(b);
+                        }
                         st.body.push(stmt.clone());
                     }
                     seen += 1;
